@@ -1711,7 +1711,7 @@ func (p *Parser) parseBooleanExpression(single bool, negated bool, scriptName st
 		if p.curToken.Type != token.RPAREN {
 			return nil, nil, NewRangeParseError(openToken, p.curToken, "missing closing ')' for nested boolean expression")
 		}
-		if p.peekTokenIs(token.AND) || p.peekTokenIs(token.OR) {
+		if !single && (p.peekTokenIs(token.AND) || p.peekTokenIs(token.OR)) {
 			p.nextToken()
 			rightExpression, rightImpData, err := p.parseRightSideExpression(nestedExpression, single, negated, scriptName)
 			if err != nil {
@@ -1786,21 +1786,14 @@ func (p *Parser) parseRightSideExpression(left ast.BooleanExpression, single boo
 			Operator: operator,
 			Right:    right,
 		}
-		if p.curToken.Literal == token.RPAREN {
-			return grouped, impData, nil
-		}
-		operator = p.curToken.Type
-		if negated {
-			operator = getNegatedBooleanOperator(p.curToken.Type)
-		}
-		binaryExpression := &ast.BinaryExpression{Left: grouped, Operator: operator}
-		boolExpression, exprImpData, err := p.parseBooleanExpression(false, negated, scriptName)
+		// '&&' binds tighter than '||': the group built so far becomes the left
+		// operand of whatever operator follows.
+		restExpression, restImpData, err := p.parseRightSideExpression(grouped, single, negated, scriptName)
 		if err != nil {
 			return nil, nil, err
 		}
-		impData.add(exprImpData)
-		binaryExpression.Right = boolExpression
-		return binaryExpression, impData, nil
+		impData.add(restImpData)
+		return restExpression, impData, nil
 	} else if p.curToken.Type == token.OR {
 		operator := curTokenType
 		right, exprImpData, err := p.parseBooleanExpression(false, negated, scriptName)
